@@ -108,6 +108,8 @@ ElabEnum(d) ==
             !.defaultable = HasIdent(d.attrs, "defaultable")]
 EnumOk(d) ==
   /\ TySmall(d.base) /\ IntsSmall(d.attrs, {"singleton"})
+  (* a case marked `default` twice counts as two default cases for the code ("multiple default variants"): no image here *)
+  /\ \A i \in DOMAIN d.vars : Cardinality({j \in DOMAIN d.vars[i].attrs : d.vars[i].attrs[j].k = "ident" /\ d.vars[i].attrs[j].name = "default"}) <= 1
   /\ \A i \in DOMAIN d.attrs : IsDoc(d.attrs[i]) => d.attrs[i].value.k = "str"
   /\ \A i \in DOMAIN d.vars : \A j \in DOMAIN d.vars[i].attrs : IsDoc(d.vars[i].attrs[j]) => d.vars[i].attrs[j].value.k = "str"
 
